@@ -42,6 +42,9 @@ def gen_cases(tier, seed):
     # families: one key / many messages and one message / many keys signed back to back in one process
     for i in range(6 if q else 60):
         yield "family", {"salt": rng.getrandbits(32), "n": 6}
+    # the same inputs carried in other bytes-like objects / passed by position or by keyword: a different CONTAINER or CALL FORM is not a different input
+    for i in range(6 if q else 60):
+        yield "arg_forms", {"salt": rng.getrandbits(32), "mlen": [0, 1, 32, 100][i % 4]}
     # invalid-curve forgery: pk = 0 does not lift to the curve; (0, sqrt(-7)) has order 3 on y^2 = x^3 - 7, so a
     # verifier that does not insist on a curve point can be satisfied without any secret key
     for i in range(6 if q else 40):
@@ -58,7 +61,7 @@ def gen_cases(tier, seed):
 
 
 def required(tier):
-    return {"sign.decided": 120, "sign.class.odd_y": 15, "sign.class.pk_leading_zero": 10, "sign.class.aux_omitted": 20, "sign.class.rx_leading_zero": 5, "family.signs": 50,
+    return {"sign.decided": 120, "sign.class.odd_y": 15, "sign.class.pk_leading_zero": 10, "sign.class.aux_omitted": 20, "sign.class.rx_leading_zero": 5, "family.signs": 50, "argforms.calls": 50,
             "sign.badkey_refused": 6, "verify.decided": 500, "verify.expected_accept": 40, "verify.mut.pk_zero_prepended": 30,
             "verify.mut.sig_zero_before_s": 30, "verify.mut.odd_R": 10, "verify.mut.twist_forgery": 4}
 
@@ -188,6 +191,53 @@ def run_case(kind, params, ctx):
             ctx.violation(f"verify/rejects-own-signature/{cls}", f"{out}")
         if bytes(b340.pubkey(pt)) != pk:
             ctx.violation("pubkey/wrong", f"bip340.pubkey({pt})")
+        return
+    if kind == "arg_forms":
+        rng = rng_for("C12a", params["salt"])
+        d = rng.randrange(1, N)
+        sk, msg, aux = d.to_bytes(32, "big"), rand_bytes(rng, params["mlen"]), rand_bytes(rng, 32)
+        pk = secp.pub(d)[0].to_bytes(32, "big")
+        exp = rs.sign(sk, msg, aux)
+        forms = [("positional", lambda: b340.sign(sk, msg, aux)), ("keyword-aux", lambda: b340.sign(sk, msg, aux=aux)),
+                 ("bytearray-msg", lambda: b340.sign(sk, bytearray(msg), aux)), ("memoryview-msg", lambda: b340.sign(sk, memoryview(msg), aux)),
+                 ("bytearray-key", lambda: b340.sign(bytearray(sk), msg, aux)), ("bytearray-aux", lambda: b340.sign(sk, msg, bytearray(aux)))]
+        for name, fn in forms:
+            ctx.count("argforms.calls")
+            ctx.seen("argf", (params["salt"], name))
+            try:
+                got = bytes(fn())
+            except ContractViolation:
+                raise
+            except TypeError:
+                ctx.count("argforms.refused_with_TypeError")     # refusing another container type is fine; a different answer is not
+                continue
+            except Exception as e:
+                if name in ("positional", "keyword-aux"):
+                    ctx.violation(f"sign/raises/arg-form/{name}", f"{type(e).__name__}: {e}")
+                continue
+            if got != exp:
+                ctx.violation(f"sign/differs-from-bip340/arg-form/{name}", f"sign(d={d:#x}, msg={msg.hex()[:40]}, aux={aux.hex()}) called as {name} = {got.hex()}, reference {exp.hex()}")
+        for name, fn in (("bytes", lambda: b340.verify(pk, msg, exp)), ("bytearray-msg", lambda: b340.verify(pk, bytearray(msg), exp)), ("memoryview-msg", lambda: b340.verify(pk, memoryview(msg), exp)),
+                         ("bytearray-sig", lambda: b340.verify(pk, msg, bytearray(exp))), ("bytearray-pk", lambda: b340.verify(bytearray(pk), msg, exp))):
+            ctx.count("argforms.calls")
+            try:
+                out = fn()
+                ok = out == "OK" or out is True
+            except ContractViolation:
+                raise
+            except TypeError:
+                ctx.count("argforms.refused_with_TypeError")
+                continue
+            except Exception as e:
+                ok, out = False, f"{type(e).__name__}: {e}"
+            if not ok:
+                ctx.violation(f"verify/rejects-valid/arg-form/{name}", f"verify of a valid triple passed as {name}: {out!r}")
+        # the text of a bytearray's repr is a different message: the signature must not carry over
+        alt = str(bytearray(msg)).encode()
+        ok, _o = _lib_verify(pk, alt, exp)
+        if ok and alt != msg:
+            ctx.violation("verify/accepts-invalid/arg-form/repr-of-message", f"signature for {msg.hex()} accepted for {alt!r}")
+        ctx.nontrivial()
         return
     if kind == "family":
         rng = rng_for("C12f", params["salt"])
